@@ -35,14 +35,53 @@ func checkC18(c *core.Ctx, r *core.Report) {
 
 	crcFn := c.ExtObj("hash/crc32", "ChecksumIEEE")
 	readChunk := c.Fn(pkgUtils, "ChecksumFile.readChunkAt")
-	readU32 := c.Obj(pkgUtils, "readUint32At")
+	// the 4-byte reader of the checksum file: a function (fd, offset) today, or a method (csf, offset)
+	readU32 := c.TryObj(pkgUtils, "readUint32At")
+	if readU32 == nil {
+		readU32 = c.Obj(pkgUtils, "ChecksumFile.readUint32At")
+	}
 	magicConst := c.ConstVal(pkgUtils, "magicNumber")
 	csfReadAt := c.Obj(pkgUtils, "ChecksumFile.ReadAt")
 	osReadAt := c.ExtObj("os", "File.ReadAt")
 
 	// ---------------------------------------------------------------- (1)
 	name := shortFn(readChunk)
-	bufParam := readChunk.Params[1]
+	// the chunk offset and the caller's buffer, found by their roles rather than by parameter position: the
+	// offset is the value V such that the 4-byte reader is called with V and with V + constant (magic at V,
+	// checksum and length at fixed distances); the buffer is the slice the CRC is computed over (set below)
+	var offVal ssa.Value
+	{
+		var cands []ssa.Value
+		for _, call := range callsTo(readChunk, readU32) {
+			if _, isK := core.ConstIntValue(call.Call.Args[1]); !isK {
+				cands = append(cands, call.Call.Args[1])
+			}
+		}
+		best := 0
+		for _, v := range cands {
+			n := 0
+			for _, w := range cands {
+				if bo, ok := w.(*ssa.BinOp); ok && bo.Op == token.ADD && bo.X == v {
+					if _, isK := core.ConstIntValue(bo.Y); isK {
+						n++
+					}
+				}
+			}
+			if n > best {
+				best, offVal = n, v
+			}
+		}
+	}
+	var bufParam ssa.Value
+	for _, call := range callsTo(readChunk, crcFn) {
+		if sl, ok := call.Call.Args[0].(*ssa.Slice); ok {
+			bufParam = sl.X
+		}
+	}
+	if offVal == nil || bufParam == nil {
+		r.Undecided("GUARD", name+":magic-dispatch", c.Pos(readChunk.Pos()), "the chunk offset (a value read at V and at V + constant) or the checksummed buffer was not found")
+		return
+	}
 	// magic comparison on the value read at the chunk offset
 	var magicIf *ssa.If
 	var matchSucc, mismatchSucc *ssa.BasicBlock
@@ -69,7 +108,7 @@ func checkC18(c *core.Ctx, r *core.Report) {
 				if call, ok := ex.Tuple.(*ssa.Call); ok && core.IsCallTo(call, readU32) {
 					if off, isConst := core.ConstIntValue(call.Call.Args[1]); isConst && off == 0 {
 						legacyIfs = append(legacyIfs, ifi)
-					} else if call.Call.Args[1] == ssa.Value(readChunk.Params[2]) {
+					} else if call.Call.Args[1] == offVal {
 						magicIf, matchSucc, mismatchSucc = ifi, eq, ne
 					}
 				}
@@ -110,7 +149,7 @@ func checkC18(c *core.Ctx, r *core.Report) {
 		okStored := false
 		if ex, ok := crcOther.(*ssa.Extract); ok && ex.Index == 0 {
 			if call, ok := ex.Tuple.(*ssa.Call); ok && core.IsCallTo(call, readU32) {
-				if add, ok := call.Call.Args[1].(*ssa.BinOp); ok && add.Op == token.ADD && add.X == ssa.Value(readChunk.Params[2]) {
+				if add, ok := call.Call.Args[1].(*ssa.BinOp); ok && add.Op == token.ADD && add.X == offVal {
 					if k, ok := core.ConstIntValue(add.Y); ok && k == c.ConstVal(pkgUtils, "checksumOffset") {
 						okStored = true
 					}
